@@ -1,6 +1,6 @@
 (* C03, concurrency: the socket thread (one arrival / POWEROFF / POWERON) racing the clock thread (one clck_tick) on ONE transceiver.
    Atomic steps are exactly the segments between the yield points of the schedule driver (vp/sched_driver.py) on the real objects:
-   a lock-protected section (tx_queue_append / tx_queue_clear / the partition in clck_tick) and every single read or write of the
+   a lock-protected section (tx_queue_append / tx_queue_clear / the partition in clck_tick), the release of the lock, and every single read or write of the
    shared attributes `running` and `fh` (CPython's GIL makes one attribute load/store atomic).
    mirrors: Transceiver.clck_tick, BurstForwarder.forward_msg -> Transceiver.get_tx_freq (reads self.fh twice when hopping is on),
    Transceiver.recv_data_msg, power_event_handler (running := x; tx_queue_clear(); disable_fh()), CTRL POWERON (reads running first).
@@ -15,13 +15,14 @@ Inductive tick_pc :=
 | TK0                                   (* not started *)
 | TK1                                   (* about to read `running` *)
 | TK2                                   (* about to take the queue lock *)
+| TK2u (emit drop : list msg)           (* lock released (partition done inside the section), about to go on *)
 | TK3 (emit drop : list msg)            (* forwarding: about to read `fh` (is None?) for the head of emit *)
 | TK4 (emit drop : list msg)            (* hopping: about to read `fh` again (.resolve) *)
 | TDone
 | TCrash (lost : list msg).             (* AttributeError in the clock thread: the bursts it held are gone *)
 
 Inductive sock_op := Arrive (m : msg) | PowerOff | PowerOn.
-Inductive sock_pc := S0 | SA1 (m : msg) | SA2 (m : msg) | SP1 | SP2 | SP3 | SP4 | SO1 | SO2 | SDone.
+Inductive sock_pc := S0 | SA1 (m : msg) | SA2 (m : msg) | SA2u | SP1 | SP2 | SP2u | SP3 | SP4 | SO1 | SO2 | SDone.
 
 Record st := { running : bool; queue : list msg; fhset : bool; tpc : tick_pc; spc : sock_pc;
                accepted : list msg; emitted : list msg; stale : list msg; cleared : list msg; rejected : list msg }.
@@ -49,11 +50,9 @@ Definition tick_step (f : Z) (s : st) : st :=
   match tpc s with
   | TK0 => with_t s TK1 (queue s) (emitted s) (stale s)
   | TK1 => if running s then with_t s TK2 (queue s) (emitted s) (stale s) else with_t s TDone (queue s) (emitted s) (stale s)
-  | TK2 => let '(d, e, w) := part f (queue s) in
-           match e with
-           | [] => with_t s TDone w (emitted s) (stale s ++ d)
-           | _ => with_t s (TK3 e d) w (emitted s) (stale s)
-           end
+  | TK2 => let '(d, e, w) := part f (queue s) in with_t s (TK2u e d) w (emitted s) (stale s)
+  | TK2u [] d => with_t s TDone (queue s) (emitted s) (stale s ++ d)
+  | TK2u e d => with_t s (TK3 e d) (queue s) (emitted s) (stale s)
   | TK3 [] d => with_t s TDone (queue s) (emitted s) (stale s ++ d)
   | TK3 (m :: rest) d => if fhset s then with_t s (TK4 (m :: rest) d) (queue s) (emitted s) (stale s) else after_fwd s m rest d
   | TK4 [] d => with_t s TDone (queue s) (emitted s) (stale s ++ d)
@@ -71,9 +70,11 @@ Definition sock_step (op : sock_op) (s : st) : st :=
   match spc s with
   | S0 => match op with Arrive m => keep_s s (SA1 m) | PowerOff => keep_s s SP1 | PowerOn => keep_s s SO1 end
   | SA1 m => if running s then keep_s s (SA2 m) else with_s s SDone (running s) (queue s) (fhset s) (accepted s) (cleared s) (rejected s ++ [m])
-  | SA2 m => with_s s SDone (running s) (queue s ++ [m]) (fhset s) (accepted s ++ [m]) (cleared s) (rejected s)
+  | SA2 m => with_s s SA2u (running s) (queue s ++ [m]) (fhset s) (accepted s ++ [m]) (cleared s) (rejected s)
+  | SA2u => keep_s s SDone
   | SP1 => with_s s SP2 false (queue s) (fhset s) (accepted s) (cleared s) (rejected s)
-  | SP2 => with_s s SP3 (running s) [] (fhset s) (accepted s) (cleared s ++ queue s) (rejected s)
+  | SP2 => with_s s SP2u (running s) [] (fhset s) (accepted s) (cleared s ++ queue s) (rejected s)
+  | SP2u => keep_s s SP3
   | SP3 => if fhset s then keep_s s SP4 else keep_s s SDone
   | SP4 => with_s s SDone (running s) (queue s) false (accepted s) (cleared s) (rejected s)
   | SO1 => if running s then keep_s s SDone else keep_s s SO2
@@ -94,7 +95,7 @@ Fixpoint drain_t (fuel : nat) (f : Z) (s : st) : st := match fuel with O => s | 
 Fixpoint drain_s (fuel : nat) (op : sock_op) (s : st) : st := match fuel with O => s | S k => if s_live s then drain_s k op (sock_step op s) else s end.
 Definition run_all (f : Z) (op : sock_op) (sched : list bool) (s : st) : st :=
   let s1 := run f op sched s in
-  drain_s 8 op (drain_t (2 * length (queue s) + 2 * length (queue s1) + 12) f s1).
+  drain_s 10 op (drain_t (2 * length (queue s) + 2 * length (queue s1) + 14) f s1).
 
 Definition init (r fh : bool) (q : list msg) : st :=
   {| running := r; queue := q; fhset := fh; tpc := TK0; spc := S0; accepted := q; emitted := []; stale := []; cleared := []; rejected := [] |}.
